@@ -37,6 +37,38 @@ theorem store_eq_levels {α : Type} (H : α → α → α) (zero : α) (l : List
 example : buildStore (fun a b : Nat => 10 * a + b) 0 [1, 2, 3] =
     [some 1, some 2, some 3, none, some 12, some 33, some 153] := by decide
 
+/-- `nextPowerOfTwo n` is the least power of two ≥ n (n ≥ 1) -/
+theorem nextPowerOfTwo_least (n : Nat) (h : 0 < n) :
+    ∃ k, nextPowerOfTwo n = 2^k ∧ n ≤ 2^k ∧ (k = 0 ∨ 2^(k-1) < n) := Lemmas.nextPowerOfTwo_spec n h
+
+/-- `rollingMerkleTreeStore.add` is a binary-counter increment whose carry is the node hash: from a
+    store that represents `L` (one perfect-subtree root per set bit of the count) adding a leaf yields
+    the store that represents `L ++ [x]`, never popping an empty slice. -/
+theorem rolling_add_increments {α : Type} (H : α → α → α) (zero : α) (n : Nat) (roots L : List α) (x : α)
+    (h : Lemmas.Rep H zero n 0 roots L) :
+    ∃ roots', (⟨roots, n⟩ : Roll α).add H x = some ⟨roots', n + 1⟩ ∧ Lemmas.Rep H zero (n + 1) 0 roots' (L ++ [x]) := by
+  obtain ⟨r, ha, hr⟩ := Lemmas.addLoop_rep H zero n 0 roots L [x] h rfl
+  rw [Lemmas.mroot_one] at ha
+  exact ⟨r, by simp [Roll.add, ha], hr⟩
+
+/-- O(log n) memory: a store that represents `n` leaves keeps at most log₂(n+1) roots -/
+theorem rolling_roots_log {α : Type} (H : α → α → α) (zero : α) : ∀ (n j : Nat) (roots L : List α),
+    Lemmas.Rep H zero n j roots L → 2^roots.length ≤ n + 1 := by
+  intro n
+  induction n using Nat.strongRecOn with
+  | _ n ih =>
+    intro j roots L h
+    by_cases h0 : n = 0
+    · subst h0; rw [Lemmas.rep_zero] at h; rw [h.1]; simp
+    · by_cases h1 : n % 2 = 1
+      · rw [Lemmas.rep_odd H zero h1] at h
+        obtain ⟨r, rs, L1, L2, hr, _, _, _, hrep⟩ := h
+        have := ih (n/2) (by omega) _ _ _ hrep
+        rw [hr, List.length_cons, Nat.pow_succ]; omega
+      · rw [Lemmas.rep_even H zero h0 (by omega)] at h
+        have := ih (n/2) (by omega) _ _ _ h
+        omega
+
 /-- Both paths on EVERY list of 0..N leaves (the empty list after the `fix:` guard). -/
 theorem merkle_paths_eq_spec {α : Type} (H : α → α → α) (zero : α) (l : List α) :
     storeRoot H zero l = some (mroot H zero l) ∧ rollingRoot H zero l = some (mroot H zero l) := by
@@ -129,6 +161,13 @@ theorem weight_def (t : Tx) (h : TxWf t) :
 theorem blockWeight_def (txs : List Tx) :
     blockWeight txs = 4 * (80 + varIntSize txs.length) + (txs.map txWeight).sum :=
   Lemmas.blockWeight_def txs
+
+theorem varInt_length (n : Nat) : (varInt n).length = varIntSize n := Lemmas.varInt_length n
+
+/-- weight = 4·stripped size + witness bytes (marker, flag, witness stacks) -/
+theorem weight_split (t : Tx) : txWeight t = 4 * t.baseSize + (t.totalSize - t.baseSize) := by
+  have := Lemmas.baseSize_le_totalSize t
+  unfold txWeight WITNESS_SCALE_FACTOR; omega
 
 /-- without witness data the weight is exactly 4 × the serialized size -/
 theorem weight_no_witness (t : Tx) (h : TxWf t) (hw : t.hasWitness = false) :
